@@ -1142,7 +1142,12 @@ func main() {
 // tolScaleExps: the exponents k of the exact rescaling 2^k applied to coordinates and tolerances of
 // the tolerance_scaled class. Beyond |k| ~ 512 the squares of differences / of the tolerance are
 // not representable (overflow to +Inf, underflow to 0) although every distance and tolerance is.
-var tolScaleExps = []int{0, 0, 100, -100, 300, -300, 500, -500, 512, -512, 540, -540, 600, -600, 900, -900, 1000, -1060}
+// The window -541..-520 (about 1e-163..1e-157) is dense: there the ordinates and the tolerance are normal doubles
+// but their squares are subnormal or flush to zero one by one (2^-538 squared is below the smallest subnormal,
+// 2^-537 squared is not), so a comparison of squares that is not rescaled first goes wrong for SOME of the
+// differences of one and the same case.
+var tolScaleExps = []int{0, 0, 100, -100, 300, -300, 500, -500, 512, -512, 540, -540, 600, -600, 900, -900, 1000, -1060,
+	-520, -530, -535, -536, -537, -538, -539, -541, 505, 509, 511}
 
 // genTolScaled: tolerance pairs whose exact answer is decided on an integer pre-image, rescaled
 // by an exact power of two 2^k. G lives on the lattice of multiples of 1/8; every vertex of H is
